@@ -206,13 +206,18 @@ IsBlocked(cn) == cn.blocked # NotBlocked
 (* PERSISTENCE (C09).  SAVE writes the whole dataset as it is at that moment (entries past their deadline are
    not part of it); a restart loads exactly the last completed dump, dropping what expired in the meantime. *)
 PurgeAllMust(dbs, tm) == [d \in DBs |-> DelAll(dbs[d], {k \in DOMAIN dbs[d] : MustGo(dbs[d][k], tm)})]
+(* While a background save is under way a SAVE is refused (as Redis does); a server that carries it out all the same must
+   not let the older background snapshot replace the newer dump afterwards (S.bg.late: BgDone then leaves the disk alone). *)
 CmdSAVE(S, a, tm) ==
-  IF Len(a) # 1 THEN SFail(S) ELSE SOut(ROk, [S EXCEPT !.disk = [k |-> "dump", dbs |-> S.dbs, at |-> tm]])
+  IF Len(a) # 1 THEN SFail(S)
+  ELSE LET saved == [S EXCEPT !.disk = [k |-> "dump", dbs |-> S.dbs, at |-> tm]] IN
+    IF S.bg = NoBg THEN SOut(ROk, saved)
+    ELSE SFail(S) \cup SOut(ROk, [saved EXCEPT !.bg.late = TRUE])
 
 (* BACKGROUND SAVE (C10).  While it runs clients keep writing.  The dump it produces holds, for every key in it,
    an entry (value AND deadline together) that key actually had at one instant during the save; a key that was
    absent at some instant may be missing. *)
-BgStart(S) == [S EXCEPT !.bg = [k |-> "bg", hist |-> [d \in DBs |-> [key \in DOMAIN S.dbs[d] |-> {S.dbs[d][key]}]]]]
+BgStart(S) == [S EXCEPT !.bg = [k |-> "bg", late |-> FALSE, hist |-> [d \in DBs |-> [key \in DOMAIN S.dbs[d] |-> {S.dbs[d][key]}]]]]
 BgTrack(S0, S1) ==
   IF S1.bg = NoBg THEN S1
   ELSE [S1 EXCEPT !.bg.hist = [d \in DBs |->
@@ -221,7 +226,7 @@ BgTrack(S0, S1) ==
                    ks == DOMAIN h \cup DOMAIN S0.dbs[d] \cup DOMAIN S1.dbs[d]
                    at(X, key) == IF key \in DOMAIN X.dbs[d] THEN X.dbs[d][key] ELSE Absent
                IN [key \in ks |-> (IF key \in DOMAIN h THEN h[key] ELSE {Absent}) \cup {at(S0, key), at(S1, key)}]]]
-BgDone(S) == [S EXCEPT !.disk = [k |-> "multi", hist |-> S.bg.hist], !.bg = NoBg]
+BgDone(S) == IF S.bg.late THEN [S EXCEPT !.bg = NoBg] ELSE [S EXCEPT !.disk = [k |-> "multi", hist |-> S.bg.hist], !.bg = NoBg]
 
 RECURSIVE DbChoices(_, _)
 DbChoices(h, ks) ==
